@@ -149,7 +149,9 @@ func (g *gen) intBinary(t *Type, depth int) Expr {
 	b := &Binary{Op: op, T: t}
 	// scalar/vector mixing for vectors
 	lt, rt := t, t
-	if t.K == TVec {
+	// WGSL allows scalar-vector mixing for the arithmetic operators only
+	// (+ - * / %), not for & | ^.
+	if mixOK := op != "&" && op != "|" && op != "^"; t.K == TVec && mixOK {
 		switch g.intn(4, "mix") {
 		case 0:
 			lt = t.ScalarOf()
@@ -319,15 +321,31 @@ func (g *gen) convToInt(k Kind, depth int) Expr {
 	return g.guardConst(c, func() { c.Args[0] = g.runtimeOf(Scalar(src)) })
 }
 
-func hasDeterminant(e Expr) bool {
-	found := false
+// foldable reports whether naga may constant-fold e: a WGSL const-expression,
+// or one whose non-constant leaves are `let`s bound to foldable values (naga
+// folds through those).
+func foldable(e Expr) bool {
+	ok := true
 	WalkExpr(e, func(x Expr) bool {
-		if b, ok := x.(*Builtin); ok && b.Name == "determinant" {
-			found = true
+		switch y := x.(type) {
+		case *VarRef:
+			switch {
+			case y.V.Kind == VConst:
+			case y.V.Kind == VLet && y.V.Init != nil && foldable(y.V.Init):
+			default:
+				ok = false
+			}
+		case *CallE, *AddrOf, *Deref:
+			ok = false
+		case *Builtin:
+			switch y.Name {
+			case "arrayLength", "atomicLoad", "atomicAdd", "atomicSub", "atomicMax", "atomicMin", "atomicAnd", "atomicOr", "atomicXor", "atomicExchange", "atomicStore":
+				ok = false
+			}
 		}
-		return !found
+		return ok
 	})
-	return found
+	return ok
 }
 
 // floatLeafish yields a float whose bits are determined (a load or literal),
@@ -441,13 +459,8 @@ func (g *gen) floatExpr(depth int) Expr {
 		b := &Binary{Op: op, L: g.expr(t, depth-1), R: g.expr(t, depth-1), T: t}
 		return g.guardConst(b, func() { b.R = g.runtimeOf(t) })
 	case r < 56:
-		x := g.expr(t, depth-1)
-		if hasDeterminant(x) && g.f.off("determinant.negate") {
-			// known finding: SPIR-V types determinant() as its matrix argument, so negating it fails
-			return x
-		}
 		g.class("unary-:f32")
-		return &Unary{Op: "-", X: x, T: t}
+		return &Unary{Op: "-", X: g.expr(t, depth-1), T: t}
 	case r < 72:
 		return g.floatBuiltin(t, depth, false)
 	case r < 82:
@@ -517,6 +530,7 @@ func (g *gen) fuzzyFloat(t *Type, depth int) Expr {
 		b := &Builtin{Name: name, Args: args, T: t}
 		return g.guardConst(b, func() { b.Args[0] = g.runtimeOf(vt) })
 	case r < 92 && t.K == TScalar && g.f.Matrices && !g.f.off("builtin.determinant"):
+		// (known finding C08-10: determinant() is typed as its matrix argument, which can break any use of the value)
 		n := 2 + g.intn(3, "detn")
 		g.class("builtin:determinant")
 		mt := Mat(n, n, F32)
@@ -596,12 +610,8 @@ func (g *gen) vecExpr(t *Type, depth int) Expr {
 			return g.intBuiltin(t, depth)
 		default:
 			if g.chance(20, "vfneg") {
-				x := g.expr(t, depth-1)
-				if hasDeterminant(x) && g.f.off("determinant.negate") {
-					return x
-				}
 				g.class("unary-:vec<f32>")
-				return &Unary{Op: "-", X: x, T: t}
+				return &Unary{Op: "-", X: g.expr(t, depth-1), T: t}
 			}
 			return g.floatBuiltin(t, depth, false)
 		}
@@ -782,7 +792,7 @@ func (g *gen) matExpr(t *Type, depth int) Expr {
 // to a mistyped value" (tag const-fold.mat-binary) by making one operand a
 // run-time value.
 func (g *gen) matBinGuard(b *Binary) Expr {
-	if !IsConstExpr(b.L) || !IsConstExpr(b.R) || !g.f.off("const-fold.mat-binary") {
+	if !foldable(b.L) || !foldable(b.R) || !g.f.off("const-fold.mat-binary") {
 		return b
 	}
 	if g.inConst > 0 {
